@@ -8,8 +8,8 @@
 
 static inline void check_creader_skip(const Str &s, const char *sfx, Str (*show)(const Str &))
 {
-    static const char *SETS[5] = {" \t\n", " ", "ab", "", nullptr}; // nullptr = creader_skipws: "\t\n\r "
-    for (int k = 0; k < 5; k++)
+    static const char *SETS[6] = {" \t\n", " ", "ab", "", "\x89 ", nullptr}; // nullptr = creader_skipws: "\t\n\r "
+    for (int k = 0; k < 6; k++)
     {
         const char *set = SETS[k] ? SETS[k] : "\t\n\r ";
         const char *fn = SETS[k] ? "creader_skip" : "creader_skipws";
@@ -39,5 +39,5 @@ static inline void check_creader_skip(const Str &s, const char *sfx, Str (*show)
                           show(s).c_str(), esc(set).c_str(), again, cur, cur2);
         w_creader_del(r);
     }
-    mc::more_cases(5);
+    mc::more_cases(6);
 }
